@@ -135,7 +135,8 @@ namespace c10
         const Loc ml = locate(sx, sd, C.n, d, t);          // parent of the target inside the mesh numbering
         const Index want = PC.trg[pl.D][pl.E];
         VF_CHECK(ml.D == pl.D && ml.E == want, ctx << " refined part " << d << "-entity " << i << " (child " << pl.k << " of part " << pl.D << "-entity " << pl.E << ", attached to mesh entity " << want << ") maps to fine mesh entity " << t << ", which is a child of coarse " << ml.D << "-entity " << ml.E);
-        VF_CHECK(groups[{pl.D, pl.E}].insert(t).second, ctx << " two children of part " << pl.D << "-entity " << pl.E << " map to the same fine " << d << "-entity " << t);
+        const bool fresh = groups[std::make_pair(pl.D, pl.E)].insert(t).second;
+        VF_CHECK(fresh, ctx << " two children of part " << pl.D << "-entity " << pl.E << " map to the same fine " << d << "-entity " << t);
       }
     }
   }
@@ -182,7 +183,7 @@ namespace c10
     {
       const Index nD = m.n[D]; if(nD == 0) return {};
       int k = 1 + t.range(0, std::min<int>(int(nD), kmax) - 1);
-      std::vector<Index> all(size_t(nD)); std::iota(all.begin(), all.end(), Index(0)); Chooser ch(t, size_t(k), 16);
+      std::vector<Index> all((size_t)nD); std::iota(all.begin(), all.end(), Index(0)); Chooser ch(t, size_t(k), 16);
       for(int i = 0; i < k; ++i) { size_t j = size_t(i) + ch.pick(unsigned(all.size() - size_t(i))); std::swap(all[size_t(i)], all[j]); }
       all.resize(size_t(k)); return all;
     };
@@ -287,7 +288,7 @@ namespace c10
     for(Index i = 0; i < ncells; ++i) rank_of[i] = (i < Index(nranks)) ? int(i) : int(ch.pick(unsigned(nranks)));
     // move the guaranteed cells to tape-chosen places so that rank r is not always cell r
     for(Index i = 0; i < Index(nranks); ++i) { Index j = i + Index(ch.pick(unsigned(ncells - i))); std::swap(rank_of[i], rank_of[j]); }
-    std::vector<Index> ptr(size_t(nranks) + 1, 0), idx(size_t(ncells));
+    std::vector<Index> ptr(size_t(nranks) + 1, 0), idx((size_t)ncells);
     for(Index i = 0; i < ncells; ++i) ptr[size_t(rank_of[i]) + 1]++;
     for(int r = 0; r < nranks; ++r) ptr[size_t(r) + 1] += ptr[size_t(r)];
     { std::vector<Index> pos(ptr.begin(), ptr.end() - 1); for(Index i = 0; i < ncells; ++i) idx[pos[size_t(rank_of[i])]++] = i; }
@@ -305,20 +306,20 @@ namespace c10
     Flat C = flatten<Shape_>(*node->get_mesh(), neigh_valid);
     RefOpts ro; ro.geometry = geometry; ro.orientation = geometry && orientation_margin_ok(C, depth, 1e-9L);
     {
-      // input must be a valid conforming mesh and its parts must be consistent with it (generator self-check)
-      std::string s = validate(C); if(!s.empty()) throw vf::Discard{"input mesh invalid: " + s};
-      for(auto& pr : collect_parts<Shape_>(*node)) if(pr.p) { std::string ps = validate_part(flatten_part<Shape_>(*pr.p), C); if(!ps.empty()) throw vf::Discard{"input part invalid: " + pr.name + ": " + ps}; }
+      // input must be a valid conforming mesh and its parts must be consistent with it.  Every input reaching this point was
+      // built by feat3 code from data that is valid by construction (raw meshes, shipped files, factories, extract_patch),
+      // so an inconsistency here is a failure of that code, not a discard.
+      std::string s = validate(C); VF_CHECK(s.empty(), "input mesh: " << s);
+      for(auto& pr : collect_parts<Shape_>(*node)) if(pr.p) { std::string ps = validate_part(flatten_part<Shape_>(*pr.p), C); VF_CHECK(ps.empty(), "input " << pr.name << ": " << ps); }
     }
-    c.op = "boundary"; check_boundary_factory<Shape_>(*node->get_mesh(), C, "L0");
+    check_boundary_factory<Shape_>(*node->get_mesh(), C, "L0 boundary factory:");
     for(int l = 0; l < depth; ++l)
     {
       if(long(C.n[sd]) * long(ref_count(C.simplex, sd, sd)) > cell_cap) break;
       const std::string ctx = "L" + std::to_string(l) + "->" + std::to_string(l + 1);
-      c.op = "refine";
       std::unique_ptr<NodeOf<Shape_>> fine = node->refine_unique(mode);
       Flat F = flatten<Shape_>(*fine->get_mesh(), true);
       check_refine(C, F, ro, ctx);
-      c.op = "part";
       auto pc = collect_parts<Shape_>(*node); auto pf = collect_parts<Shape_>(*fine);
       VF_CHECK(pc.size() == pf.size(), ctx << " node has " << pc.size() << " parts/halos/patches, refined node " << pf.size());
       for(size_t i = 0; i < pc.size(); ++i)
@@ -328,9 +329,16 @@ namespace c10
         if(!pc[i].p) continue;
         check_part(C, F, flatten_part<Shape_>(*pc[i].p), flatten_part<Shape_>(*pf[i].p), ctx + " " + pc[i].name);
       }
-      c.op = "boundary"; check_boundary_factory<Shape_>(*fine->get_mesh(), F, "L" + std::to_string(l + 1));
+      check_boundary_factory<Shape_>(*fine->get_mesh(), F, "L" + std::to_string(l + 1) + " boundary factory:");
       node = std::move(fine); C = std::move(F);
     }
+  }
+
+  inline void fail_if_invalid(vf::Ctx& c, const GenInfo& gi)
+  {
+    if(gi.invalid.empty()) return;
+    c.nontrivial = true; c.op = "build:" + gi.build; c.announce();
+    VF_FAIL("mismatch:feat3 mesh built from a valid raw mesh (" << gi.build << ") is inconsistent: " << gi.invalid);
   }
 
   template<typename Shape_> inline void refine_case(vf::Tape& t, vf::Ctx& c)
@@ -339,42 +347,42 @@ namespace c10
     { static const std::string sc = selfcheck_tables(); if(!sc.empty()) throw std::runtime_error("harness reference tables disagree with FaceIndexMapping: " + sc); }
     GenOpts go; go.max_file_cells = (sd == 2 ? 40 + 3 * t.size : 10 + t.size); go.lattice_depth = 3;
     GenInfo gi; Loaded<Shape_> L = gen_node<Shape_>(t, c, go, gi);
-    c.desc = gi.desc; c.desc.set("shape", ShapeInfo<Shape_>::name());
+    c.desc = gi.desc; c.desc.set("shape", ShapeInfo<Shape_>::name()); c.label(std::string("shape:") + ShapeInfo<Shape_>::name());
+    fail_if_invalid(c, gi);
     int depth = 1 + t.range(0, 2);
     const long cell_cap = (sd == 2 ? 200L : 150L) * std::max(t.size, 10);
-    // optionally continue with a patch of the mesh (halos + split mesh parts + patch parts refine alongside)
     Flat base = flatten<Shape_>(*L.node->get_mesh(), false);
     bool nontrivial = shares_facet<Shape_>(base) || gi.reoriented > 0;
-    // generated parts
-    vf::J pj = vf::J::arr(); int nparts = t.pick({2, 3, 2, 1});
+    // generated parts (specifications first: pure harness code; the feat3 objects are built after announce())
+    std::vector<PartSpec> specs; vf::J pj = vf::J::arr(); int nparts = t.pick({2, 3, 2, 1});
     for(int k = 0; k < nparts; ++k)
     {
-      const int kind = t.pick({2, 2, 3, 2}); PartSpec ps = gen_part_spec(t, base, kind);
-      L.node->add_mesh_part("gen" + std::to_string(k), build_part<Shape_>(ps, *L.node->get_mesh()));
+      const int kind = t.pick({2, 2, 3, 2}); specs.push_back(gen_part_spec(t, base, kind)); const PartSpec& ps = specs.back();
       pj.add(ps.json()); c.label("part:" + ps.kind); if(ps.dup) c.label("part:seam-duplicate"); if(ps.flipped) c.label("part:reoriented-entities");
     }
     if(nparts) c.desc.set("parts", pj);
-    if(t.flag(1, 3)) { FEAT::Geometry::BoundaryFactory<MeshOf<Shape_>> bf(*L.node->get_mesh()); L.node->add_mesh_part("genbnd", bf.make_unique()); c.label("part:boundary-factory"); c.desc.set("boundary_part", true); ++nparts; }
-    if(gi.file_unmodified && gi.src == "file") { int np = int(L.node->get_mesh_part_names().size()) - nparts; if(np > 0) { c.label("part:shipped"); nparts += np; } }
-    // patch extraction
-    std::unique_ptr<NodeOf<Shape_>> patch;
+    const bool with_bnd = t.flag(1, 3); if(with_bnd) { c.label("part:boundary-factory"); c.desc.set("boundary_part", true); ++nparts; }
+    if(gi.file_unmodified && gi.src == "file") { int np = int(L.node->get_mesh_part_names().size()); if(np > 0) { c.label("part:shipped"); nparts += np; } }
+    // optionally continue with a patch of the mesh (halos + split mesh parts + patch parts refine alongside)
+    int nranks = 0, rank = 0; std::vector<int> rank_of; FEAT::Adjacency::Graph ear;
     if(base.n[sd] >= 2 && t.flag(1, 4))
     {
-      const int nranks = 2 + t.range(0, std::min<int>(int(base.n[sd]), 5) - 2); std::vector<int> rank_of;
-      FEAT::Adjacency::Graph ear = gen_partition(t, base.n[sd], nranks, rank_of); const int r = t.range(0, nranks - 1);
-      std::vector<int> comm; patch = L.node->extract_patch(comm, ear, r);
-      c.label("part:halo+patch"); vf::J q = vf::J::obj(); q.set("ranks", nranks); q.set("rank", r); if(rank_of.size() <= 40) q.set("rank_of_cell", vf::J(rank_of)); c.desc.set("patch", q);
+      nranks = 2 + t.range(0, std::min<int>(int(base.n[sd]), 5) - 2); ear = gen_partition(t, base.n[sd], nranks, rank_of); rank = t.range(0, nranks - 1);
+      c.label("part:halo+patch"); vf::J q = vf::J::obj(); q.set("ranks", nranks); q.set("rank", rank); if(rank_of.size() <= 40) q.set("rank_of_cell", vf::J(rank_of)); c.desc.set("patch", q);
       nparts += 1;
     }
     AdaptMode mode = AdaptMode::none; bool geometry = true;
     if(gi.file_unmodified && gi.src == "file" && t.flag(1, 3)) { mode = AdaptMode::chart; geometry = false; }
     c.desc.set("depth", depth); c.desc.set("adapt", mode == AdaptMode::chart ? "chart" : "none");
-    c.label("depth:" + std::to_string(depth)); c.label(mode == AdaptMode::chart ? "adapt:chart" : "adapt:none"); c.label(std::string("shape:") + ShapeInfo<Shape_>::name());
+    c.label("depth:" + std::to_string(depth)); c.label(mode == AdaptMode::chart ? "adapt:chart" : "adapt:none");
     c.nontrivial = nontrivial || nparts > 0;
     c.op = "refine"; c.announce();
-    if(patch)
+    for(size_t k = 0; k < specs.size(); ++k) L.node->add_mesh_part("gen" + std::to_string(k), build_part<Shape_>(specs[k], *L.node->get_mesh()));
+    if(with_bnd) { FEAT::Geometry::BoundaryFactory<MeshOf<Shape_>> bf(*L.node->get_mesh()); L.node->add_mesh_part("genbnd", bf.make_unique()); }
+    if(nranks)
     {
-      // the base node keeps the patch mesh-part of rank r; refine it alongside once (computed part)
+      std::vector<int> comm; std::unique_ptr<NodeOf<Shape_>> patch = L.node->extract_patch(comm, ear, rank);
+      // the base node keeps the patch mesh-part of this rank; refine it alongside once (computed part)
       run_levels<Shape_>(c, std::move(L.node), gi.neigh_valid, 1, mode, geometry, cell_cap);
       run_levels<Shape_>(c, std::move(patch), true, depth, mode, geometry, cell_cap);
     }
@@ -404,10 +412,12 @@ namespace c10
     const bool renum = t.flag(); if(renum) renumber(base, t);
     static const double alphas[3] = {0.0, 0.08, 0.2}; const double jit = jitter(base, t, alphas[t.pick({2, 1, 1})], 2);
     const bool mirror = t.flag(1, 4); const int depth = 1 + t.range(0, 1);
+    // tetrahedra avoid deduct_topology_from_top() while the known finding c10-tria-flip is active
+    const bool via_factory = t.flag(1, 3) || (sx && sd == 3 && c.excl("c10-tria-flip"));
     const int partkind = t.pick({1, 1, 1, 1, 1});   // 0 none, 1..4 = gen_part_spec kinds 0..3 on the shared facet / random
     // the part is drawn once (from the un-rotated mesh) so that it is the same for all symmetry pairs
     std::vector<uint32_t> ptape; for(int k = 0; k < 24; ++k) ptape.push_back(t.raw());
-    c.desc.set("shape", ShapeInfo<Shape_>::name()); c.desc.set("mesh", base.json()); c.desc.set("affine", aff); c.desc.set("jitter", jit); c.desc.set("mirror", mirror); c.desc.set("depth", depth); c.desc.set("partkind", partkind);
+    c.desc.set("shape", ShapeInfo<Shape_>::name()); c.desc.set("mesh", base.json()); c.desc.set("affine", aff); c.desc.set("jitter", jit); c.desc.set("mirror", mirror); c.desc.set("depth", depth); c.desc.set("partkind", partkind); c.desc.set("build", via_factory ? "factory" : "deduct"); c.label(via_factory ? "build:factory" : "build:deduct");
     c.label(std::string("shape:") + ShapeInfo<Shape_>::name()); c.label(mirror ? "sym:all" : "sym:proper"); c.label("depth:" + std::to_string(depth)); c.label("partkind:" + std::to_string(partkind));
     if(aff) c.label("xform:affine"); if(jit > 0) c.label("xform:jitter"); if(renum) c.label("xform:renumbered");
     c.nontrivial = true; c.op = "sym2"; c.announce();
@@ -416,7 +426,7 @@ namespace c10
     {
       Raw r = base; const size_t sel[2] = {a, b};
       for(int q = 0; q < 2; ++q) { std::vector<Index> nc(r.cells[size_t(q)].size()); for(size_t i = 0; i < nc.size(); ++i) nc[i] = r.cells[size_t(q)][size_t(sy[sel[q]].p[i])]; r.cells[size_t(q)] = nc; }
-      auto node = make_node<Shape_>(r);
+      auto node = make_node<Shape_>(r, nullptr, via_factory);
       if(partkind)
       {
         vf::Tape pt(ptape, t.size); Flat f = flatten<Shape_>(*node->get_mesh(), false);
@@ -440,30 +450,28 @@ namespace c10
     GenOpts go; go.max_file_cells = (sd == 2 ? 40 + 2 * t.size : 10 + t.size / 2); go.lattice_depth = 1;
     GenInfo gi; Loaded<Shape_> L = gen_node<Shape_>(t, c, go, gi);
     c.desc = gi.desc; c.desc.set("shape", ShapeInfo<Shape_>::name());
+    fail_if_invalid(c, gi);
     static const PermutationStrategy strat[7] = {PermutationStrategy::lexicographic, PermutationStrategy::random, PermutationStrategy::colored, PermutationStrategy::cuthill_mckee,
       PermutationStrategy::cuthill_mckee_reversed, PermutationStrategy::geometric_cuthill_mckee, PermutationStrategy::geometric_cuthill_mckee_reversed};
     static const char* sname[7] = {"lexicographic", "random", "colored", "cmk", "cmk-rev", "gcmk", "gcmk-rev"};
     const int si = t.range(0, 6);
     Flat O = flatten<Shape_>(*L.node->get_mesh(), false);
-    vf::J pj = vf::J::arr(); const int nparts = t.pick({1, 2, 1});
-    for(int k = 0; k < nparts; ++k)
-    {
-      PartSpec ps = gen_part_spec(t, O, t.pick({2, 2, 3, 2}));
-      L.node->add_mesh_part("gen" + std::to_string(k), build_part<Shape_>(ps, *L.node->get_mesh())); pj.add(ps.json()); c.label("part:" + ps.kind);
-    }
+    std::vector<PartSpec> specs; vf::J pj = vf::J::arr(); const int nparts = t.pick({1, 2, 1});
+    for(int k = 0; k < nparts; ++k) { specs.push_back(gen_part_spec(t, O, t.pick({2, 2, 3, 2}))); pj.add(specs.back().json()); c.label("part:" + specs.back().kind); }
     if(nparts) c.desc.set("parts", pj);
+    int nranks = 0; std::vector<int> rank_of; FEAT::Adjacency::Graph ear;
     if(O.n[sd] >= 2 && t.flag(1, 3))
     {
       // patch mesh-parts of a random partition live on the node and must be permuted with it
-      const int nranks = 2 + t.range(0, std::min<int>(int(O.n[sd]), 4) - 2); std::vector<int> rank_of;
-      FEAT::Adjacency::Graph ear = gen_partition(t, O.n[sd], nranks, rank_of);
-      for(int r = 0; r < nranks; ++r) L.node->create_patch_meshpart(ear, r);
+      nranks = 2 + t.range(0, std::min<int>(int(O.n[sd]), 4) - 2); ear = gen_partition(t, O.n[sd], nranks, rank_of);
       c.label("part:patch"); c.desc.set("patch_ranks", nranks);
     }
     const bool refine_after = t.flag();
     c.desc.set("strategy", sname[si]); c.desc.set("refine_after", refine_after); c.label(std::string("strategy:") + sname[si]); c.label(std::string("shape:") + ShapeInfo<Shape_>::name());
     c.nontrivial = O.n[sd] >= 2; c.op = std::string("permute:") + sname[si]; c.announce();
-    { std::string s = validate(O); if(!s.empty()) throw vf::Discard{"input mesh invalid: " + s}; }
+    for(size_t k = 0; k < specs.size(); ++k) L.node->add_mesh_part("gen" + std::to_string(k), build_part<Shape_>(specs[k], *L.node->get_mesh()));
+    for(int r = 0; r < nranks; ++r) L.node->create_patch_meshpart(ear, r);
+    { std::string s = validate(O); VF_CHECK(s.empty(), "input mesh: " << s); }
     std::vector<FlatPart> po; for(auto& pr : collect_parts<Shape_>(*L.node)) if(pr.p) po.push_back(flatten_part<Shape_>(*pr.p));
 
     L.node->create_permutation(strat[si]);
@@ -509,7 +517,7 @@ namespace c10
       VF_CHECK(off.front() == 0 && off.back() == P.n[sd], what << " offsets do not span all elements: " << off.front() << ".." << off.back());
       std::vector<int> blk(size_t(P.n[sd]), -1);
       for(size_t b = 0; b + 1 < off.size(); ++b) { VF_CHECK(off[b] <= off[b + 1], what << " offsets not monotone"); for(Index e = off[b]; e < off[b + 1]; ++e) blk[e] = int(b); }
-      std::vector<std::vector<Index>> at_vert(size_t(P.n[0]));
+      std::vector<std::vector<Index>> at_vert((size_t)P.n[0]);
       for(Index e = 0; e < P.n[sd]; ++e) for(int k = 0; k < P.nc[sd][0]; ++k) at_vert[P.at(sd, 0, e, k)].push_back(e);
       for(auto& lst : at_vert) for(size_t a = 0; a < lst.size(); ++a) for(size_t b = a + 1; b < lst.size(); ++b)
       {
@@ -517,13 +525,19 @@ namespace c10
         else VF_CHECK(blk[lst[a]] != blk[lst[b]], "elements " << lst[a] << " and " << lst[b] << " share a vertex and have the same colour " << blk[lst[a]]);
       }
     };
-    own_blocks(mp.get_element_coloring(), false, "colouring");
+    {
+      // known finding c10-coloring-offsets: create_colored() stores only the NC block starts and drops the documented final
+      // entry (= number of elements).  With the switch on, the missing entry is appended so that the colour blocks themselves
+      // (including the last one, which validate_element_coloring() never sees) are still checked.
+      std::vector<Index> col = mp.get_element_coloring();
+      if(!col.empty() && c.excl("c10-coloring-offsets") && col.back() != P.n[sd]) col.push_back(P.n[sd]);
+      own_blocks(col, false, "colouring");
+    }
     own_blocks(mp.get_element_layering(), true, "layering");
     if(si == 2) VF_CHECK(!mp.get_element_coloring().empty(), "colored strategy produced no colouring");
     if(si >= 3) VF_CHECK(!mp.get_element_layering().empty(), "Cuthill-McKee strategy produced no layering");
     if(refine_after)
     {
-      c.op = std::string("permute+refine:") + sname[si];
       run_levels<Shape_>(c, std::move(L.node), true, 1, AdaptMode::none, true, 1000000L);
     }
   }
